@@ -271,6 +271,8 @@ def oracle(cases):
         views = {}                # client -> last view string
         accepted_groups = {1: set(), 3: set()}
         baseline = {}             # (client, g) -> (T, ME, MM) of a group the client should still hold Active
+        evicted = {}              # (client, g) -> step of the last eviction
+        rid_of = {}               # welcome index -> rumor number (from the results of successful processing)
         ok_wrappers = {}          # (client, w, salt) -> True once processed ok
         next_w = 0
         for k, (op, out) in enumerate(zip(c["ops"], c["impl"])):
@@ -282,7 +284,13 @@ def oracle(cases):
                 g = int(kv(res, "g")) if t[0] == "group" else int(t[2])
                 for w in (kv(res, "w") or "-").split(","):
                     if w != "-" and w != "":
-                        wmeta[int(w)] = {"g": g, "epoch": kv(res, "epoch"), "tok": kv(res, "tok"), "members": kv(res, "members")}
+                        wmeta[int(w)] = {"g": g, "epoch": kv(res, "epoch"), "tok": kv(res, "tok"), "members": kv(res, "members"), "k": k}
+            if t[0] == "remove" and res.startswith("ok"):
+                # the group has evicted these clients: whatever they still hold locally is no longer a group
+                # in which they ARE members, so a (re-)invitation cannot "disturb" it
+                for jj in t[3].split(","):
+                    baseline.pop((int(jj), int(t[2])), None)
+                    evicted[(int(jj), int(t[2]))] = k
             if t[0] == "forge" and res.startswith("ok"):
                 wmeta[int(kv(res, "w"))] = {"g": int(t[2]), "epoch": kv(res, "epoch"), "tok": kv(res, "tok"), "members": kv(res, "members"), "forged": True}
             if len(t) < 2 or not t[1].isdigit() or int(t[1]) not in (1, 3):
@@ -338,14 +346,28 @@ def oracle(cases):
                     mls_after = (gfield(after, "T"), gfield(after, "ME"), gfield(after, "MM")) if after else None
                     if after and gstate(after) == "a" and mls_after == baseline[(j, g)] and gstate(part) != "a":
                         continue            # back to the undisturbed state (e.g. accept of a newer, genuine invitation)
-                    sig = {"process": "welcome-replay-pending", "accept": "welcome-replay-accept-overwrites", "decline": "welcome-replay-decline-deactivates"}[t[0]]
+                    # mechanism: the SAME rumor again (replay: processed before by this client / its stored welcome
+                    # already Accepted), a rumor of a foreign creator, or ANOTHER genuine invitation to that group id
+                    # (an older one delivered late, or one still pending in the store)
+                    wi = int(t[2])
+                    if t[0] == "process":
+                        replay = any(kk[0] == j and kk[1] == t[2] for kk in ok_wrappers)
+                    else:
+                        rid_n = rid_of.get(wi)
+                        replay = rid_n is not None and rid_n in bw and bw[rid_n].split(":")[1] == "a"
                     if t[0] == "process" and not res.startswith("ok"):
                         sig = "welcome-row-before-reject"
-                    elif wmeta.get(int(t[2]), {}).get("forged"):
+                    elif wmeta.get(wi, {}).get("forged"):
                         sig = {"process": "welcome-foreign-creator-overwrites-record", "accept": "welcome-foreign-creator-replaces-mls", "decline": "welcome-foreign-creator-deactivates"}[t[0]]
+                    elif replay:
+                        sig = {"process": "welcome-replay-pending", "accept": "welcome-replay-accept-overwrites", "decline": "welcome-replay-decline-deactivates"}[t[0]]
+                    else:
+                        sig = {"process": "welcome-other-invitation-overwrites-record", "accept": "welcome-other-invitation-replaces-mls", "decline": "welcome-other-invitation-deactivates"}[t[0]]
                     fail(c, k, sig, f"group {g}, which client {j} holds Active in MLS state {baseline[(j, g)]}, changed by `{t[0]}` ({res.split()[0]}): before `{part}` after `{after}`")
                 # a fresh, consented join establishes the baseline
-                if t[0] == "accept" and res == "ok" and tg is not None and (j, tg) not in baseline and tg in ag and gstate(ag[tg]) == "a":
+                if t[0] == "accept" and res == "ok" and tg is not None and (j, tg) not in baseline and tg in ag and gstate(ag[tg]) == "a" \
+                        and (gfield(ag[tg], "T") == wmeta.get(int(t[2]), {}).get("tok")) and not wmeta.get(int(t[2]), {}).get("forged") \
+                        and wmeta.get(int(t[2]), {}).get("k", -1) > evicted.get((j, tg), -1):
                     baseline[(j, tg)] = (gfield(ag[tg], "T"), gfield(ag[tg], "ME"), gfield(ag[tg], "MM"))
             if t[0] in ("deliver", "probe"):
                 # group traffic moves the baseline; leaving the group (eviction) ends it
@@ -357,6 +379,8 @@ def oracle(cases):
                             baseline[(j, g)] = (gfield(part, "T"), gfield(part, "ME"), gfield(part, "MM"))
             if t[0] == "process":
                 key = (j, t[2], t[3])
+                if res.startswith("ok") and t[4] == "ok":
+                    rid_of[int(t[2])] = int(res.split()[1].split(":")[0][1:])
                 if res.startswith("ok"):
                     # (1) same wrapper id again: the stored welcome comes back and nothing changes
                     if ok_wrappers.get(key):
